@@ -251,7 +251,9 @@ def run_case(case):
                         if rsl is None:
                             continue
                         mod = type(k.coeff).__module__.split(".")
-                        todo.append((f"{mod[2]}.{mod[3]}.{type(k.coeff).__name__}.o{o}", f"{mod[2]}|{mod[3]}|{type(k.coeff).__name__}|o{o}|nf{k.coeff.nf}", rsl, dict(point=case["point"], scheme=th["FNS"])))
+                        m2 = getattr(k.coeff, "m2hq", None)
+                        todo.append((f"{mod[2]}.{mod[3]}.{type(k.coeff).__name__}.o{o}", f"{mod[2]}|{mod[3]}|{type(k.coeff).__name__}|o{o}|nf{k.coeff.nf}", rsl,
+                                     dict(point=case["point"], scheme=th["FNS"], ratio=(float(case["point"]["Q2"] / m2) if m2 else None))))
     finally:
         pc.RSL.__init__ = orig_init
     counters["rsl_init"] = len(created)
